@@ -743,3 +743,6 @@ NONTRIVIAL = "one obligation per guarded return, cursor writer, forwarding metho
 EXPLANATION += (
     ' Round-5: R3 also states where the block ends (ptr + old_layout.size(), not the size padded to the alignment) and that the in-place path is taken only when the address fits new_layout.align(); R7 requires the slice size to be a checked product; R1/R8 compare beg and the watermark as linear forms of fully expanded expressions, so beg may be an address rounding minus the base; R10 every raw write through base + start ends at a min(.., commit mark); R11 a conditional reserve(X - Y) before raw copies is conditional on exactly X > Y; R12 the alignment rounding is applied to the address (or the alignment is tested against what the base guarantees).'
 )
+EXPLANATION += (
+    ' Round 6: R5 a scratch borrow records the watermark itself as its mark; R3 the address test of the in-place path uses the low-bit mask align - 1, and zero fills are unconditional on the successful path; R13 the end of a request is a checked sum and the commit rounding follows the capacity test (D47 repaired).'
+)
